@@ -255,6 +255,15 @@ def position_monitor(rec, o, vals, w, text_of):
         if not first.startswith(name):
             rec.ev('c17:module_start_convention_not_claimed')
             return
+    if name == '<lambda>':
+        # an anonymous function has no name token; jedi points at the `lambda` keyword.  Like the
+        # (1, 0) convention for modules this is recorded, and only the keyword is checked.
+        rec.ev('c17:lambda_convention_not_claimed')
+        lines_ = parso.split_lines(text, keepends=True)
+        if not (1 <= line <= len(lines_)) or not lines_[line - 1][col:].startswith('lambda'):
+            rec.violate('c17:lambda_position', '<lambda> reported at %s:%s, which is not a lambda keyword'
+                        % (line, col), **w)
+        return
     rec.ev('c17:positions_checked')
     lines = parso.split_lines(text, keepends=True)
     if not 1 <= line <= len(lines):
